@@ -479,7 +479,8 @@ def handle (sd : Side) (op : List String) (impl : List String) : Handled :=
           | none => ["TrimOK.unparsed"]
           | some mo =>
             viol (reportedAreLive s mo.msgs) (grp ++ ".content") ++
-            (if mo.err.isSome ∧ ¬ (kind = "age" ∧ s.live.isEmpty) then [grp ++ ".err"] else []) ++
+            -- (a helper on a read-only handle fails with ErrReadonly as soon as it has something to delete: the model says when)
+            (if mo.err.isSome ∧ ¬ (kind = "age" ∧ s.live.isEmpty) ∧ ¬ sd.ro then [grp ++ ".err"] else []) ++
             (match grp, kind with
              | "trim", "off" =>
                let b := if x = offsetNewest then s.next else x
